@@ -373,7 +373,7 @@ class Ctx:
         """Write coq/theories/Gen/<name>.v (only if changed). `name` must start with the property id
         or 'Shared_'."""
         assert name.startswith(self.prop + "_") or name.startswith("Shared_"), name
-        header = f"(* GENERATED from {REPO} by harness/drivers/{self.prop.lower()}.py on every run - do not edit, not committed *)\n"
+        header = f"(* GENERATED from the source tree under test by harness/drivers/{self.prop.lower()}.py on every run - do not edit, not committed *)\n"
         bad = FORBIDDEN.search(text)
         if bad:
             raise RuntimeError(f"generated file {name} contains forbidden token {bad.group(0)!r}")
